@@ -67,7 +67,23 @@ def roundtrip_problems(doc):
     except Exception as e:
         return ["serialize(format='rdf') raised %s: %s" % (type(e).__name__, str(e)[:200])], None
     try:
-        d2 = pm.ProvDocument.deserialize(content=text, format="rdf")
+        # the text reaches the reader as content, as a binary stream, as an object that only has read(), or as a stream that holds a
+        # line of other data first and is positioned behind it (a document inside a larger stream)
+        import io
+        import zlib
+        how = zlib.crc32(text.encode("utf-8")) % 4
+        if how == 0:
+            d2 = pm.ProvDocument.deserialize(content=text, format="rdf")
+        elif how == 1:
+            d2 = pm.ProvDocument.deserialize(io.BytesIO(text.encode("utf-8")), format="rdf")
+        elif how == 2:
+            from pv.checks.c16 import ReadOnly
+            d2 = pm.ProvDocument.deserialize(ReadOnly(text.encode("utf-8")), format="rdf")
+        else:
+            head = b"<urn:not:ours> <urn:not:ours> <urn:not:ours> .\n"
+            s = io.BytesIO(head + text.encode("utf-8"))
+            s.seek(len(head))
+            d2 = pm.ProvDocument.deserialize(s, format="rdf")
     except Exception as e:
         return ["deserialize raised %s: %s" % (type(e).__name__, str(e)[:200]), {"text": text[:3000]}], text
     try:
@@ -138,6 +154,10 @@ def judge(ctx, idx, case):
 
 
 def run_case(ctx, idx):
+    if idx % 3 == 0:
+        with common.warnings_are_errors(ctx):
+            judge(ctx, idx, make_case(ctx, idx))
+        return
     judge(ctx, idx, make_case(ctx, idx))
 
 
